@@ -281,7 +281,7 @@ def run(tier, replay):
             r = side[cover].result()
             cover = False
         else:
-            r = run_tlc("MC_WsEndpoint.tla", cfg, D, workers=8, coverage=cover, timeout=3300, heap="12g", work_id="c11-mc")
+            r = run_tlc("MC_WsEndpoint.tla", cfg, D, workers=8, coverage=cover, timeout=3300, heap="6g", work_id="c11-mc")
         ctx.add_tlc("%s (%s, Dev={})" % (label, cfg), r)
         ctx.require_tlc_ok(cfg, r)
         if r.violation:
@@ -313,6 +313,13 @@ def run(tier, replay):
     ctx.add_tlc("liveness CloseAnswered, AllDelivered under fairness (%s)" % live_cfg, r)
     ctx.require_tlc_ok(live_cfg, r)
     pool.shutdown()
+
+    # a request spelled in another letter case may also be left un-upgraded, however the client goes on afterwards
+    refused = {(c["key"], c["hsv"]): c["exp"] for c in cases.values() if c["exp"]["status"] != 101}
+    for c in cases.values():
+        alt = refused.get((c["key"], c["hsv"]))
+        if c["hsv"] != "canon" and c["exp"]["status"] == 101 and alt is not None and alt not in c.get("exp_alt", []):
+            c.setdefault("exp_alt", []).append(alt)
 
     # ---- 2. replay of every behaviour on the real endpoint
     order = sorted(cases)
